@@ -372,6 +372,43 @@ class Gen:
         self.ops.append({"k": "chain", "l": l, "r": rr})
         self.pool.append(sh.copy(pending=False))
 
+    def g_roundtrip_empty(self):
+        """A -> B, chained in B with a statically empty relation, transferred on (often straight back to A),
+        optionally materialized, then processed: Processor's pruning of the empty branch meets transfer
+        simplification / re-application."""
+        r = self.rng
+        i = self.pick(lambda s: not s.pending)
+        if i is None or len(self.engines) < 2:
+            return
+        sh = self.pool[i]
+        b = r.choice([e for e in self.engines if e != sh.eng])
+        self.ops.append({"k": "xfer", "t": i, "to": b})
+        self.pool.append(sh.copy(eng=b, pending=False, multi=True))
+        k = len(self.pool) - 1
+        if r.random() < 0.3:
+            self.force_last = True
+            getattr(self, "g_" + r.choice(["sel", "proj", "calc", "slice"]))()
+            self.force_last = False
+            k = len(self.pool) - 1
+        cols = sorted(self.pool[k].cols)
+        self.ops.append({"k": "leaf", "eng": b, "cols": cols, "rows": [], "special": "doomed"})
+        self.pool.append(Shadow(cols, b, nrows=0))
+        j = len(self.pool) - 1
+        l, rr = (j, k) if r.random() < 0.5 else (k, j)
+        self.ops.append({"k": "chain", "l": l, "r": rr})
+        self.pool.append(self.pool[k].copy(pending=False))
+        c = len(self.pool) - 1
+        to = sh.eng if r.random() < 0.7 else r.choice([e for e in self.engines if e != b])
+        self.ops.append({"k": "xfer", "t": c, "to": to})
+        self.pool.append(self.pool[c].copy(eng=to))
+        if r.random() < 0.4:
+            self.nmat += 1
+            self.ops.append({"k": "mat", "t": len(self.pool) - 1, "name": f"m{self.nmat}"})
+            self.pool.append(self.pool[-1].copy(mat=True))
+        self.ops.append({"k": r.choice(["process", "process", "run"]), "t": len(self.pool) - 1})
+        if self.ops[-1]["k"] == "process":
+            self.pool.append(self.pool[-1].copy())
+
     def g_join(self):
         r = self.rng
         i = self.pick()
@@ -389,7 +426,7 @@ class Gen:
                 fl["bt"] = r.random() < 0.7
             if r.random() < 0.6:
                 fl["tr"] = True
-        p = self.pred(l.cols | rr.cols, 1) if r.random() < 0.4 else None
+        p = self.pred(l.cols | rr.cols, 2) if r.random() < 0.4 else None
         if r.random() < 0.2:
             fl["cc"] = True       # Join(pred, min_columns=max_columns=<shared key columns>).partial(rhs).apply(lhs)
         self.ops.append({"k": "join", "l": i, "r": j, "p": p, **fl})
@@ -578,8 +615,12 @@ class Gen:
             if r.random() < 0.6 and missing:
                 base["p"] = ["cmp", "eq", ["ref", r.choice(missing)], ["lit", 0]]
                 edit = "missing"
-            elif r.random() < 0.4 and missing:
-                base["cc"] = sorted((tgt.cols & rr.cols & set(KEY_TAGS)) | {r.choice(missing)})
+            elif r.random() < 0.4 and (missing or (tgt.cols ^ rr.cols)):
+                one_sided = sorted(c for c in (tgt.cols ^ rr.cols) if c in KEY_TAGS)
+                extra = r.choice(one_sided) if one_sided and r.random() < 0.7 else (r.choice(missing) if missing else None)
+                if extra is None:
+                    return
+                base["cc"] = sorted((tgt.cols & rr.cols & set(KEY_TAGS)) | {extra})
                 edit = "common"
             elif tgt.eng != rr.eng:
                 base["bt"] = False
